@@ -62,7 +62,10 @@ TG_FINE = sorted(set([250. + 5. * i for i in range(51)]))          # thorough: 5
 PG_T = [1e4, 5e4, 101325., 5e5, 1e6, 1e7]
 TG = [250., 275., 298.15, 310., 340., 370., 400., 450., 500.]
 PG = [1e4, 101325., 1e6]
-ORDER = {'s': 0, 'l': 1, 'g': 2}
+# every phase label the library accepts: 'S' (second solid) must behave like 's', 'L' (second liquid) like 'l'.  The label is what is PASSED
+# to the library; the reference model always works with the canonical lower-case phase.
+ORDER = {'s': 0, 'l': 1, 'g': 2, 'S': 0, 'L': 1}
+LABELS = {'s': 'sS', 'l': 'lL', 'g': 'g'}
 HVAP_ARG = 38000.     # J/mol, constant user model passed as `Hvap=`
 CN_ARG = 80.          # J/mol/K, constant user model passed as `Cn=` to a phase-locked chemical
 
@@ -169,7 +172,7 @@ class Pure(System):
     def canon(self, st): return (st['config'], st['last'])
 
     def _phases(self, config):
-        return 'slg' if config[1].startswith('ref') else config[2]
+        return 'slgSL' if config[1].startswith('ref') else config[2]
 
     def actions(self, st):
         if st['last'] is not None: return []
@@ -203,6 +206,10 @@ class Pure(System):
         if kind == 'ref':
             for P in Ps:
                 acts.append(('vap', P)); acts.append(('fus', P))
+            # the same jumps through the alternative labels of the condensed phases
+            for P in PG:
+                acts.append(('vap', P, 'g', 'L'))
+                for hi, lo in (('L', 's'), ('l', 'S'), ('L', 'S')): acts.append(('fus', P, hi, lo))
         return acts
 
     def step(self, st, a):
@@ -256,7 +263,7 @@ class Pure(System):
         if op == 'dH':
             _, ph, T = a
             m = dict(m, phase=ph)
-            cn = prim(c, mode)[ph]
+            cn = prim(c, mode)[ph.lower()]
             h = 0.25
             if not (cn.Tmin + 2 * h < T < cn.Tmax - 2 * h):
                 raise Rejected('outside the range of the heat-capacity correlation', cut=True)
@@ -279,7 +286,7 @@ class Pure(System):
         if op == 'dS':
             _, ph, Ta, Tb = a
             m = dict(m, phase=ph)
-            cn = prim(c, mode)[ph]
+            cn = prim(c, mode)[ph.lower()]
             if not (cn.Tmin + 0.02 < Ta and Tb < cn.Tmax - 0.02):
                 raise Rejected('outside the range of the heat-capacity correlation', cut=True)
             P = 101325.
@@ -310,7 +317,8 @@ class Pure(System):
             P = a[1]
             if op == 'vap': Tt, L, hi, lo = c.Tb, c.Hvap(c.Tb), 'g', 'l'
             else: Tt, L, hi, lo = c.Tm, c.Hfus, 'l', 's'
-            m = dict(m, transition=op)
+            if len(a) > 2: hi, lo = a[2], a[3]
+            m = dict(m, transition=op, labels=hi + lo)
             dH = c.H(hi, Tt, P) - c.H(lo, Tt, P)
             if not (abs(dH - L) <= 1e-9 * max(abs(L), abs(c.H(hi, Tt, P)), abs(c.H(lo, Tt, P))) + 1e-9):
                 raise Violation('jump-H', f'{ID} ({mode}) H_{hi}({Tt}) - H_{lo}({Tt}) = {dH!r}, latent heat = {L!r}', match=m, residual=abs(dH - L))
@@ -331,6 +339,7 @@ class Pure(System):
 
 def _phases_involved(a):
     if a[0] in ('assembly', 'dH', 'dS'): return [a[1]]
+    if a[0] in ('vap', 'fus') and len(a) > 2: return [a[2], a[3]]
     return {'vap': ['g', 'l'], 'fus': ['l', 's'], 'SgP': ['g']}.get(a[0], [])
 
 def _crosses_melting(mode, a):
@@ -375,7 +384,8 @@ class Mixture(System):
         tups = TUPLES_Q if tier == 'quick' else TUPLES_T
         Ts = [275., 340., 450.] if tier == 'quick' else [250., 275., 298.15, 340., 400., 450., 500.]
         Ps = [101325., 1e6] if tier == 'quick' else [1e4, 101325., 1e6, 1e7]
-        cf = [(t, ph, T, P) for t in tups for ph in ('l', 'g') for T in Ts for P in Ps]
+        phs = ('l', 'g', 'L', 's', 'S')          # every label; the condensed alternatives must give the values of their canonical phase
+        cf = [(t, ph, T, P) for t in tups for ph in phs for T in Ts for P in Ps if not (ph in 'sS' and tier != 'quick' and P not in (101325., 1e6))]
         k = seed % len(cf)
         return cf[k:] + cf[:k]
 
@@ -396,7 +406,8 @@ class Mixture(System):
         n = np.array(x) * k
         nz = [(i, v) for i, v in enumerate(n) if v]
         m = dict(multicomponent=len(nz) > 1)
-        Hi = [chems[i].H(ph, T, P) for i, _ in nz]; Ci = [chems[i].Cn(ph, T) for i, _ in nz]; Si = [chems[i].S(ph, T, P) for i, _ in nz]
+        cph = ph.lower()          # reference: the pure values of the CANONICAL phase
+        Hi = [chems[i].H(cph, T, P) for i, _ in nz]; Ci = [chems[i].Cn(cph, T) for i, _ in nz]; Si = [chems[i].S(cph, T, P) for i, _ in nz]
         Href = sum(v * h for (_, v), h in zip(nz, Hi)); Cref = sum(v * c for (_, v), c in zip(nz, Ci))
         ntot = float(n.sum())
         Smix_ref = -R * sum(v * math.log(v / ntot) for _, v in nz)
@@ -533,7 +544,7 @@ class Setters(System):
     with the chemical's CURRENT public Tm, Tb, Hfus, Hvap(Tb), Cn, S0, phase_ref / locked phase."""
     name = 'c07.setters'
     merge_across_configs = False
-    PTS = [('s', 260.), ('l', 275.), ('l', 340.), ('g', 340.), ('g', 450.)]
+    PTS = [('s', 260.), ('l', 275.), ('l', 340.), ('g', 340.), ('g', 450.), ('S', 260.), ('L', 340.)]
     DONOR = 'Propanol'
 
     def warm(self): fx.tmo()
@@ -805,7 +816,7 @@ class MixLive(System):
     (edited) pure values for H and Cn, and its entropy must exceed the mole-weighted sum by the same composition-only term as before the edit."""
     name = 'c07.mixlive'
     merge_across_configs = False
-    PTS = [('s', 260.), ('l', 320.), ('g', 400.), ('g', 480.)]
+    PTS = [('s', 260.), ('l', 320.), ('g', 400.), ('g', 480.), ('S', 260.), ('L', 320.)]
     N = (1., 2.5, 0.375)
     INPLACE = ('S0', 'Hfus')            # setters that update the functors in place; the others rebuild them (reset_free_energies)
 
